@@ -69,33 +69,31 @@ Proof.
   intros H. unfold has_ix. induction l as [|x r IH]; cbn; [auto|]. destruct (H x) as (-> & ->). now rewrite IH.
 Qed.
 
-(* the theorem *)
-Lemma xtick_index_victims rep w pt now :
+(* the theorem; `now` is the clock reading of the pass's shard decisions, `now2` that of its index decisions *)
+Lemma xtick_index_victims rep w pt now now2 :
   XInv (x_cat w) -> NodeOK w pt ->
-  forall X, In X (l_ixs (snd (xtick rep w pt now))) ->
+  forall X, In X (l_ixs (snd (xtick rep w pt now now2))) ->
   forall s, In s (x_shards w) -> xs_pt s = pt -> xs_ix s = X ->
-    In (xs_id s) (l_shards (snd (xtick rep w pt now))) /\
     exists sg cs, In sg (c_sgs (x_cat w)) /\ In cs (sg_shards sg) /\ cs_id cs = xs_id s /\ sg_end sg = xs_end s /\
-                  expired (pol_d (x_cat w) (sg_rp sg)) (sg_end sg) now = true.
+                  expired (pol_d (x_cat w) (sg_rp sg)) (sg_end sg) now2 = true /\
+                  (expired (pol_d (x_cat w) (sg_rp sg)) (sg_end sg) now = true ->
+                   In (xs_id s) (l_shards (snd (xtick rep w pt now now2)))).
 Proof.
   intros I N X HX s Hs Hpt HsX.
   set (c := x_cat w) in *.
   set (sinf := shard_infos c pt). set (iinf := index_infos c pt).
   set (shs1 := map (refresh_shard sinf pt) (x_shards w)).
   set (ixs1 := map (refresh_ix iinf pt) (map (push_ix sinf shs1 pt) (x_ixs w))).
-  assert (EX : l_ixs (snd (xtick rep w pt now)) = map v_id (expired_ixs_x ixs1 iinf pt now)) by reflexivity.
-  assert (ES : l_shards (snd (xtick rep w pt now)) = map v_id (expired_shards_x shs1 sinf pt now)) by reflexivity.
+  assert (EX : l_ixs (snd (xtick rep w pt now now2)) = map v_id (expired_ixs_x ixs1 iinf pt now2)) by reflexivity.
+  assert (ES : l_shards (snd (xtick rep w pt now now2)) = map v_id (expired_shards_x shs1 sinf pt now)) by reflexivity.
   rewrite EX in HX. rewrite ES. clear EX ES.
-  (* the shard as the catalogue lists it *)
   destruct (nk_sh _ _ N s Hs Hpt) as (sg & cs & Hsg & Hcs & Ecs & Ecpt & Ecix & Eend).
-  (* the index victim *)
   apply in_map_iff in HX. destruct HX as (v & Ev & Hv). unfold expired_ixs_x in Hv. apply in_app_or in Hv.
   assert (Hix : has_ix ixs1 X pt = has_ix (x_ixs w) X pt).
   { unfold ixs1. rewrite has_ix_map; [|intros i; destruct (refresh_ix_fields iinf pt i) as (A & B & _); auto].
     apply has_ix_map. intros i; destruct (push_ix_fields sinf shs1 pt i) as (A & B & _); auto. }
   destruct Hv as [Hv|Hv].
-  2:{ (* an index the node does not have: no shard of the node refers to it *)
-      exfalso. apply in_map_iff in Hv. destruct Hv as (f & <- & Hf). apply filter_In in Hf. destruct Hf as (_ & Hf).
+  2:{ exfalso. apply in_map_iff in Hv. destruct Hv as (f & <- & Hf). apply filter_In in Hf. destruct Hf as (_ & Hf).
       cbn in Ev. rewrite andb_true_iff, negb_true_iff in Hf. destruct Hf as (Hf & _).
       rewrite Ev, Hix in Hf. pose proof (nk_ref _ _ N s Hs Hpt) as R. rewrite HsX in R. congruence. }
   apply in_map_iff in Hv. destruct Hv as (i1 & <- & Hi1). apply filter_In in Hi1. destruct Hi1 as (Hi1 & Fi1). cbn in Ev.
@@ -106,7 +104,6 @@ Proof.
   destruct (refresh_ix_fields iinf pt ip) as (R1 & R2 & R3).
   assert (Ei0 : xi_id i0 = X) by congruence. assert (Ei0pt : xi_pt i0 = pt) by lia.
   destruct (nk_ix _ _ N i0 Hi0 Ei0pt) as (ig & ci & Hig & Hci & Eci & Ecipt & Eigend).
-  (* the duration the refreshed index holds is the duration of ITS policy *)
   assert (Hfi : exists f, In f iinf /\ si_id f = xi_id ip).
   { eexists. split; [apply in_index_infos; exists ig, ci; repeat split; eauto|]. cbn. congruence. }
   destruct (find_info_some _ _ Hfi) as (f' & Ff & Hf' & Ef').
@@ -115,17 +112,15 @@ Proof.
   apply in_index_infos in Hf'. destruct Hf' as (ig' & ci' & Hig' & Hci' & _ & ->). cbn in Ef', Edur.
   destruct (xv_ixu _ I ig' ig ci' ci Hig' Hig Hci' Hci) as (U1 & U2); [congruence|].
   destruct (xv_cover _ I sg cs ig ci Hsg Hcs Hig Hci) as (Cv & Crp); [congruence|].
-  rewrite Edur, R3, P3, <- Eigend, U2, Crp in Exp1.
-  assert (Hexp : expired (pol_d c (sg_rp sg)) (sg_end sg) now = true).
+  rewrite Edur, R3, P3 in Exp1. rewrite U2, Crp in Exp1.
+  assert (Hexp : expired (pol_d c (sg_rp sg)) (sg_end sg) now2 = true).
   { apply expired_spec in Exp1. apply expired_spec. destruct Exp1. split; [auto|lia]. }
-  split; [|exists sg, cs; repeat split; auto].
-  (* the shard is among the shard victims *)
+  exists sg, cs. repeat split; auto. clear Hexp. intros Hexp.
   apply in_map_iff. unfold expired_shards_x.
   assert (Hfs : In {| si_id := cs_id cs; si_gid := sg_id sg; si_rp := sg_rp sg; si_end := sg_end sg; si_d := pol_d c (sg_rp sg) |} sinf).
   { apply in_shard_infos. exists sg, cs. repeat split; auto. }
   destruct (xs_loaded s) eqn:L.
-  - (* loaded: refreshed to the policy's duration, expired by its own rule *)
-    destruct (find_info_some sinf (xs_id s)) as (g' & Fg & Hg' & Eg'); [eexists; split; [exact Hfs|cbn; auto]|].
+  - destruct (find_info_some sinf (xs_id s)) as (g' & Fg & Hg' & Eg'); [eexists; split; [exact Hfs|cbn; auto]|].
     apply in_shard_infos in Hg'. destruct Hg' as (sg2 & cs2 & Hsg2 & Hcs2 & _ & ->). cbn in Eg'.
     destruct (xv_shu _ I sg2 sg cs2 cs Hsg2 Hsg Hcs2 Hcs) as (V1 & V2 & _); [congruence|].
     exists {| v_id := xs_id s; v_gid := sg_id sg2; v_rp := xs_rp s |}. split; [reflexivity|]. apply in_or_app. left.
@@ -134,8 +129,7 @@ Proof.
     + apply filter_In. split; [apply in_map; auto|].
       unfold refresh_shard. assert ((xs_pt s =? pt) && xs_loaded s = true) as -> by (rewrite L; lia). rewrite Fg. cbn.
       rewrite V2, <- Eend. rewrite andb_true_iff. split; [lia|exact Hexp].
-  - (* not loaded: expired through the nil map *)
-    eexists. split; [|apply in_or_app; right; apply in_map_iff; eexists; split; [reflexivity|apply filter_In; split; [exact Hfs|]]].
+  - eexists. split; [|apply in_or_app; right; apply in_map_iff; eexists; split; [reflexivity|apply filter_In; split; [exact Hfs|]]].
     + cbn. auto.
     + cbn. rewrite andb_true_iff, negb_true_iff. split; [|exact Hexp].
       destruct (existsb _ shs1) eqn:Ex; [|auto]. exfalso. apply existsb_exists in Ex. destruct Ex as (s1 & Hs1 & Q).
